@@ -232,3 +232,19 @@ Example C14_nonvacuous :
      = [(PEnter, 0); (PEnter, 1); (PEnter, 3); (PLeave, 3)]%N
   /\ tree_ok t = true.
 Proof. vm_compute. repeat split. Qed.
+
+(* ---- table generated from the source (harness/gen.go writes Gen/Kinds.v from
+   language/kinds/kinds.go before every check run; this is re-proved then) ---- *)
+From GQL Require Gen.Kinds.
+
+(* The node kinds of language/kinds are the kinds of the child-key / struct-shape tables: every
+   kind constant names its own value, and the values are exactly the kinds that
+   Gen/VisitorKeys.v (ast structs and QueryDocumentKeys) numbers. *)
+Theorem C14_gen_kinds :
+  map snd Gen.Kinds.kinds = map snd kind_names /\ map fst Gen.Kinds.kinds = map snd Gen.Kinds.kinds.
+Proof.
+  split;
+  first [ vm_compute; reflexivity
+        | fail 1 "generated-table obligation C14_gen_kinds no longer holds against the regenerated table: the constants of language/kinds/kinds.go (Gen/Kinds.v) are not the kinds of Gen/VisitorKeys.v" ].
+Qed.
+Print Assumptions C14_gen_kinds.
